@@ -5,8 +5,9 @@ EXPLANATION = ("Bounded solver-based checking (Kani/CBMC) of the real Kalman cod
                "conversion for all finite means. Unwinding assertions on; cover witness; native replay of counterexamples.")
 ASSUMPTIONS = ["distance non-NaN and >= 0", "default filter weights (1/20, 1/160) for the stationary claims",
                "complete filter state read through the cfg(similari_verif) accessor KalmanState::verif_raw"]
-OUTSIDE = ["agreement of update() with the textbook recurrence, covariance SPD, distance = squared Mahalanobis distance: "
-           "tolerance statements over 8x8/10x10 f32 matrix products, triangular solves and Cholesky - beyond CBMC/z3 bit-precise floats",
+OUTSIDE = ["NUMERIC agreement with the textbook filter (rounding, conditioning), covariance staying symmetric positive-definite, and that the "
+           "triangular solve on S is exact because S stays diagonal: tolerance statements over 8x8/10x10 f32 matrix products, triangular "
+           "solves and Cholesky factors are beyond CBMC/z3 bit-precise floats - what IS decided is the structure of the recurrences as terms (engine M part)",
            "stationary box filter and vector-filter independence on complete states: harnesses exist but did not terminate "
            "within 15 min (see DESIGN.md); not registered"]
 KANI_MODULES = ["c07_kalman"]
@@ -32,3 +33,453 @@ KANI = [
        "point filter initiate -> predict -> predict returns the position bit-exactly, velocity 0",
        "all f32 x,y in [-1e4,1e4], unwind 18", [K + "kalman_2d_point::Point2DKalmanFilter::predict"]),
 ]
+
+# ===================================================================== engine M: structure of the filters (matrices as terms)
+import z3
+from mir_engine import MQ
+from mirlib import *
+from models import MatT, mat_sym, mat_vec
+
+EXPLANATION += (" Engine M (bounded symbolic execution of the MIR with z3; nalgebra matrices are TERMS - products, sums, transposes, "
+                "triangular solves and Cholesky factors are uninterpreted constructors, equal terms denote equal values): the box "
+                "filter builds the same measurement vector [xc, yc, angle or 0, aspect, height] in initiate, update and distance "
+                "(an axis-aligned box is angle 0 everywhere; the raw angle is stored); the process noise of predict and the "
+                "innovation noise of project are the library's height-scaled model evaluated on the height of the state GIVEN to "
+                "the function (not of the predicted one); the prediction and update follow the textbook recurrences as terms "
+                "(x' = F x, P' = F P F^T + Q; S = H P H^T + R, K from S and (P H^T)^T, x + (y K)^T, P - K^T S K; distance = "
+                "|L^-1 (z - H x)|^2 with L the Cholesky factor of S); the vector filter maps the point filter over its points, "
+                "each state with its own point, independently.")
+ASSUMPTIONS += ["M: matrices are terms over uninterpreted nalgebra operations (no numeric claim: conditioning, rounding and the diagonal structure that makes the triangular solve exact are outside)",
+                "M: weights, box fields and state entries free non-NaN f32; vector filter on 2 states / 2 points"]
+
+K2 = "similari::utils::kalman::kalman_2d_box::Universal2DBoxKalmanFilter::"
+
+
+def _box_filter(P, vm):
+    wp, wv = vm.fresh('f32', 'position_weight'), vm.fresh('f32', 'velocity_weight')
+    vm.assume(z3.And(fp_in(wp, 0.001, 1.0), fp_in(wv, 0.0001, 1.0)))
+    f = mk(P, 'Universal2DBoxKalmanFilter', motion_matrix=mat_sym('F'), update_matrix=mat_sym('H'), std_position_weight=wp, std_velocity_weight=wv)
+    return Cell(f, 'filter'), wp, wv
+
+
+def _kbox(P, vm, tag):
+    has_angle = vm.choose_n(2, "%s angle given" % tag) == 0
+    vals = {n: vm.fresh('f32', '%s_%s' % (tag, n)) for n in ('xc', 'yc', 'angle', 'aspect', 'height')}
+    for v in vals.values():
+        vm.assume(fp_in(v, -1.0e4, 1.0e4))
+    vm.assume(z3.And(fp_in(vals['aspect'], 0.01, 100.0), fp_in(vals['height'], 0.01, 1.0e4)))
+    b = Adt('Universal2DBox', 0, (vals['xc'], vals['yc'], SOME(vals['angle']) if has_angle else NONE, vals['aspect'], vals['height'], f32(1.0), NONE))
+    meas = [vals['xc'], vals['yc'], vals['angle'] if has_angle else f32(0.0), vals['aspect'], vals['height']]
+    return b, meas, vals
+
+
+def _same(a, b):
+    """bit-equality of two scalar float terms"""
+    return z3.fpToIEEEBV(fp_plain(a)) == z3.fpToIEEEBV(fp_plain(b))
+
+
+def _check_vec(vm, got, want, msg):
+    vm.check(BOOL(isinstance(got, MatT) and got.op == 'vec' and len(got.args) == len(want)), msg + " (an explicit vector of the right length)")
+    if isinstance(got, MatT) and got.op == 'vec' and len(got.args) == len(want):
+        vm.check(z3.And([_same(g, w) for g, w in zip(got.args, want)]), msg)
+
+
+def _noise(vm, wp, wv, h, kp, cp, kv=None, cv=None):
+    """the library's height-scaled noise: squares of [k w_p h]x3, c, k w_p h (and the velocity block)"""
+    def blk(k, w, c):
+        x = f_mul(f_mul(f32(k), w), h)
+        return [x, x, x, f32(c), x]
+    std = blk(kp, wp, cp) + (blk(kv, wv, cv) if kv is not None else [])
+    return [f_mul(s, s) for s in std]
+
+
+def q_box_initiate(vm, P):
+    fn = P.impl_methods[('Universal2DBoxKalmanFilter', None, 'initiate')][0][0]
+    fc, wp, wv = _box_filter(P, vm)
+    b, meas, vals = _kbox(P, vm, 'box')
+    st = vm.exec_fn(fn, [Ref(fc), Ref(Cell(b, 'b'))], {})
+    mean, cov = fld(P, st, 'KalmanState', 'mean'), fld(P, st, 'KalmanState', 'covariance')
+    _check_vec(vm, mean, meas + [f32(0.0)] * 5, "initiate: mean = [xc, yc, angle (None = 0, stored raw), aspect, height, 0 x 5]")
+    vm.check(BOOL(isinstance(cov, MatT) and cov.op == 'diag'), "initiate: diagonal covariance")
+    if isinstance(cov, MatT) and cov.op == 'diag':
+        _check_vec(vm, cov.args[0], _noise(vm, wp, wv, vals['height'], 2.0, 1e-2, 10.0, 1e-5), "initiate: covariance = squares of the height-scaled standard deviations")
+
+
+def q_box_predict(vm, P):
+    fn = P.impl_methods[('Universal2DBoxKalmanFilter', None, 'predict')][0][0]
+    fc, wp, wv = _box_filter(P, vm)
+    h = vm.fresh('f32', 'state_height')
+    vm.assume(fp_in(h, 0.01, 1.0e4))
+    mean0 = mat_sym('x')
+    vm.notes.setdefault('mat_elems', {})[(mean0.key(), 4)] = h
+    st0 = mk(P, 'KalmanState', mean=mean0, covariance=mat_sym('P'))
+    st = vm.exec_fn(fn, [Ref(fc), Ref(Cell(st0, 's'))], {})
+    mean, cov = fld(P, st, 'KalmanState', 'mean'), fld(P, st, 'KalmanState', 'covariance')
+    F, Pm = mat_sym('F'), mat_sym('P')
+    vm.check(BOOL(mean == MatT('mul', (F, mean0))), "predict: mean' = F x")
+    vm.check(BOOL(isinstance(cov, MatT) and cov.op == 'add' and cov.args[0] == MatT('mul', (MatT('mul', (F, Pm)), MatT('T', (F,)))) and cov.args[1].op == 'diag'),
+             "predict: covariance' = F P F^T + Q with diagonal Q")
+    if isinstance(cov, MatT) and cov.op == 'add' and isinstance(cov.args[1], MatT) and cov.args[1].op == 'diag':
+        _check_vec(vm, cov.args[1].args[0], _noise(vm, wp, wv, h, 1.0, 1e-2, 1.0, 1e-5),
+                   "predict: process noise = squares of the height-scaled standard deviations, on the height of the state BEFORE the prediction")
+
+
+def _project_terms(vm, wp, h, x, Pm):
+    H = mat_sym('H')
+    R = MatT('diag', (mat_vec(_noise(vm, wp, None, h, 1.0, 1e-1)),))
+    return MatT('mul', (H, x)), MatT('add', (MatT('mul', (MatT('mul', (H, Pm)), MatT('T', (H,)))), R)), R
+
+
+def _diag_ok(vm, got, wp, h, msg):
+    vm.check(BOOL(isinstance(got, MatT) and got.op == 'diag'), msg + " (diagonal)")
+    if isinstance(got, MatT) and got.op == 'diag':
+        _check_vec(vm, got.args[0], _noise(vm, wp, None, h, 1.0, 1e-1), msg)
+
+
+def q_box_update(vm, P):
+    fn = P.impl_methods[('Universal2DBoxKalmanFilter', None, 'update')][0][0]
+    fc, wp, wv = _box_filter(P, vm)
+    h = vm.fresh('f32', 'state_height')
+    vm.assume(fp_in(h, 0.01, 1.0e4))
+    x, Pm, H = mat_sym('x'), mat_sym('P'), mat_sym('H')
+    vm.notes.setdefault('mat_elems', {})[(x.key(), 4)] = h
+    b, meas, vals = _kbox(P, vm, 'meas')
+    st = vm.exec_fn(fn, [Ref(fc), Ref(Cell(mk(P, 'KalmanState', mean=x, covariance=Pm), 's')), Ref(Cell(b, 'b'))], {})
+    mean, cov = fld(P, st, 'KalmanState', 'mean'), fld(P, st, 'KalmanState', 'covariance')
+    # decode x' = x + (y K)^T
+    ok = isinstance(mean, MatT) and mean.op == 'add' and mean.args[0] == x and isinstance(mean.args[1], MatT) and mean.args[1].op == 'T' and mean.args[1].args[0].op == 'mul'
+    vm.check(BOOL(ok), "update: mean' = x + (y K)^T")
+    if not ok:
+        return
+    yT, K = mean.args[1].args[0].args
+    y = yT.args[0] if yT.op == 'T' else MatT('T', (yT,))
+    vm.check(BOOL(y.op == 'sub' and y.args[1] == MatT('mul', (H, x))), "update: innovation y = z - H x")
+    if y.op == 'sub':
+        _check_vec(vm, y.args[0], meas, "update: measurement z = [xc, yc, angle (None = 0), aspect, height]")
+    okK = K.op == 'solve_lower_triangular' and isinstance(K.args[0], MatT) and K.args[0].op == 'add'
+    vm.check(BOOL(okK), "update: gain K solves S K = (P H^T)^T")
+    if okK:
+        S = K.args[0]
+        vm.check(BOOL(S.args[0] == MatT('mul', (MatT('mul', (H, Pm)), MatT('T', (H,)))) and K.args[1] == MatT('T', (MatT('mul', (Pm, MatT('T', (H,)))),))),
+                 "update: S = H P H^T + R and the right-hand side is (P H^T)^T")
+        _diag_ok(vm, S.args[1], wp, h, "update: innovation noise R = squares of the height-scaled standard deviations on the state's height")
+        vm.check(BOOL(cov == MatT('sub', (Pm, MatT('mul', (MatT('mul', (MatT('T', (K,)), S)), K))))), "update: covariance' = P - K^T S K")
+
+
+def q_box_distance(vm, P):
+    fn = P.impl_methods[('Universal2DBoxKalmanFilter', None, 'distance')][0][0]
+    fc, wp, wv = _box_filter(P, vm)
+    h = vm.fresh('f32', 'state_height')
+    vm.assume(fp_in(h, 0.01, 1.0e4))
+    x, Pm, H = mat_sym('x'), mat_sym('P'), mat_sym('H')
+    vm.notes.setdefault('mat_elems', {})[(x.key(), 4)] = h
+    b, meas, vals = _kbox(P, vm, 'meas')
+    d = vm.exec_fn(fn, [Ref(fc), mk(P, 'KalmanState', mean=x, covariance=Pm), Ref(Cell(b, 'b'))], {})
+    S_main = MatT('mul', (MatT('mul', (H, Pm)), MatT('T', (H,))))
+    # structural decoding through the recorded term of the sum
+    sm = vm.notes.get('last_sum_term')
+    vm.check(BOOL(sm is not None and sm.op == 'cmul' and sm.args[0] == sm.args[1] and sm.args[0].op == 'solve_lower_triangular'), "distance = |r|^2 with r from a lower-triangular solve")
+    if sm is None or sm.op != 'cmul' or sm.args[0].op != 'solve_lower_triangular':
+        return
+    L, rhs = sm.args[0].args
+    vm.check(BOOL(L.op == 'chol_l' and L.args[0].op == 'cholesky' and L.args[0].args[0].op == 'add' and L.args[0].args[0].args[0] == S_main),
+             "distance: L is the Cholesky factor of S = H P H^T + R")
+    if L.op == 'chol_l' and L.args[0].op == 'cholesky' and L.args[0].args[0].op == 'add':
+        _diag_ok(vm, L.args[0].args[0].args[1], wp, h, "distance: innovation noise R on the state's height")
+    vm.check(BOOL(rhs.op == 'sub' and rhs.args[1] == MatT('mul', (H, x))), "distance: residual z - H x")
+    if rhs.op == 'sub':
+        _check_vec(vm, rhs.args[0], meas, "distance: measurement z = [xc, yc, angle (None = 0), aspect, height] - the same vector update uses")
+
+
+def _mk_vec_filter(method):
+    def q(vm, P):
+        fn = P.impl_methods[('Vec2DKalmanFilter', None, method)][0][0]
+        pf = mk(P, 'Point2DKalmanFilter', motion_matrix=mat_sym('pf'), update_matrix=mat_sym('Hp'), std_position_weight=vm.fresh('f32', 'wp'), std_velocity_weight=vm.fresh('f32', 'wv'))
+        vf = Cell(mk(P, 'Vec2DKalmanFilter', f=pf), 'vf')
+        n = 2
+        states = VecV(tuple(mk(P, 'KalmanState', mean=mat_sym('s%d' % i), covariance=mat_sym('P%d' % i)) for i in range(n)), 'slice')
+
+        def ident(x):
+            if isinstance(x, Adt) and x.ty == 'KalmanState' and isinstance(x.fields[0], MatT) and x.fields[0].op == 'sym':
+                return x.fields[0].args[0]
+            if isinstance(x, Adt) and x.ty == 'Point2DKalmanFilter':
+                return 'pf'
+            if isinstance(x, Adt) and x.ty == 'OPoint':
+                return pnames.get(id(x), 'some point')
+            return getattr(x, 'tag', repr(x))
+        points = VecV(tuple(Adt('OPoint', 0, (Adt('XY', 0, (vm.fresh('f32', 'p%d_x' % i), vm.fresh('f32', 'p%d_y' % i))),)) for i in range(n)), 'slice')
+        pnames = {id(pt): 'p%d' % i for i, pt in enumerate(points.items)}
+
+        def point_method(vm_, cal, args):
+            a = []
+            for x in args:
+                while isinstance(x, Ref):
+                    x = vm_.deref(x)
+                a.append(x)
+            vm_.notes.setdefault('point_calls', []).append((cal.method, tuple(ident(x) for x in a)))
+            return Opaque('Out', (cal.method,) + tuple(ident(x) for x in a))
+        for m in ('initiate', 'predict', 'update', 'distance'):
+            vm.spec_calls[('Point2DKalmanFilter', None, m)] = point_method
+        if method == 'initiate':
+            r = vm.exec_fn(fn, [Ref(vf), Ref(Cell(points, 'pts'))], {})
+            want = [('initiate', 'pf', 'p%d' % i) for i in range(n)]
+        elif method == 'predict':
+            r = vm.exec_fn(fn, [Ref(vf), Ref(Cell(states, 'st'))], {})
+            want = [('predict', 'pf', 's%d' % i) for i in range(n)]
+        else:
+            r = vm.exec_fn(fn, [Ref(vf), Ref(Cell(states, 'st')), Ref(Cell(points, 'pts'))], {})
+            want = [(method, 'pf', 's%d' % i, 'p%d' % i) for i in range(n)]
+        got = [getattr(x, 'tag', None) for x in r.items]
+        vm.check(BOOL(got == want), "the vector filter applies the point filter's %s to every (state, point) pair independently, in order" % method)
+        vm.check(BOOL(sorted(vm.notes.get('point_calls', [])) == sorted((w[0], w[1:]) for w in want)), "... and does nothing else with the point filter")
+    return q
+
+
+KALMAN_REPLAY = r'''
+use nalgebra::{Point2, SMatrix, SVector};
+use similari::utils::bbox::Universal2DBox;
+use similari::utils::kalman::kalman_2d_box::Universal2DBoxKalmanFilter;
+use similari::utils::kalman::kalman_2d_point::Point2DKalmanFilter;
+use similari::utils::kalman::kalman_2d_point_vec::Vec2DKalmanFilter;
+
+// independent f64 reference of the box filter (textbook recurrences, the library's height-scaled noise model)
+type V10 = SVector<f64, 10>;
+type M10 = SMatrix<f64, 10, 10>;
+struct Ref64 { wp: f64, wv: f64 }
+impl Ref64 {
+    fn stds(&self, kp: f64, cp: f64, kv: f64, cv: f64, h: f64) -> [f64; 10] {
+        let (p, v) = (kp * self.wp * h, kv * self.wv * h);
+        [p, p, p, cp, p, v, v, v, cv, v]
+    }
+    fn z(b: &Universal2DBox) -> SVector<f64, 5> { SVector::<f64, 5>::from_column_slice(&[b.xc as f64, b.yc as f64, b.angle.unwrap_or(0.0) as f64, b.aspect as f64, b.height as f64]) }
+    fn f() -> M10 { let mut m = M10::identity(); for i in 0..5 { m[(i, 5 + i)] = 1.0; } m }
+    fn h() -> SMatrix<f64, 5, 10> { SMatrix::<f64, 5, 10>::identity() }
+    fn initiate(&self, b: &Universal2DBox) -> (V10, M10) {
+        let z = Self::z(b);
+        let mut x = V10::zeros();
+        for i in 0..5 { x[i] = z[i]; }
+        let s = self.stds(2.0, 1e-2, 10.0, 1e-5, b.height as f64);
+        (x, M10::from_diagonal(&V10::from_iterator(s.iter().map(|e| e * e))))
+    }
+    fn predict(&self, s: &(V10, M10)) -> (V10, M10) {
+        let q = self.stds(1.0, 1e-2, 1.0, 1e-5, s.0[4]);
+        let f = Self::f();
+        (f * s.0, f * s.1 * f.transpose() + M10::from_diagonal(&V10::from_iterator(q.iter().map(|e| e * e))))
+    }
+    fn project(&self, s: &(V10, M10)) -> (SVector<f64, 5>, SMatrix<f64, 5, 5>) {
+        let p = self.wp * s.0[4];
+        let r = [p, p, p, 1e-1, p];
+        let h = Self::h();
+        (h * s.0, h * s.1 * h.transpose() + SMatrix::<f64, 5, 5>::from_diagonal(&SVector::<f64, 5>::from_iterator(r.iter().map(|e| e * e))))
+    }
+    fn update(&self, s: &(V10, M10), b: &Universal2DBox) -> (V10, M10) {
+        let (pm, pc) = self.project(s);
+        let h = Self::h();
+        let k = s.1 * h.transpose() * pc.try_inverse().unwrap();
+        (s.0 + k * (Self::z(b) - pm), s.1 - k * pc * k.transpose())
+    }
+    fn distance(&self, s: &(V10, M10), b: &Universal2DBox) -> f64 {
+        let (pm, pc) = self.project(s);
+        let y = Self::z(b) - pm;
+        (y.transpose() * pc.try_inverse().unwrap() * y)[(0, 0)]
+    }
+}
+
+fn close(a: f64, b: f64) -> bool { (a - b).abs() <= 2e-3 * (1.0 + a.abs().max(b.abs())) }
+
+#[test]
+fn replay() {
+    let f = Universal2DBoxKalmanFilter::default();
+    let r = Ref64 { wp: 1.0 / 20.0, wv: 1.0 / 160.0 };
+    // growing / shrinking / turning boxes, axis-aligned and rotated, raw angles outside [0, 2pi)
+    let tracks: Vec<Vec<Universal2DBox>> = vec![
+        (0..8).map(|k| Universal2DBox::new(10.0 + k as f32, 5.0, None, 1.5, 10.0 * 1.06f32.powi(k))).collect(),
+        (0..8).map(|k| Universal2DBox::new(100.0, 50.0 - 2.0 * k as f32, Some(0.8 + 0.02 * k as f32), 0.7, 30.0 * 0.95f32.powi(k))).collect(),
+        (0..6).map(|k| Universal2DBox::new(3.0, 4.0, Some(-0.1), 1.0, 8.0 + k as f32)).collect(),
+        (0..6).map(|k| Universal2DBox::new(3.0 + k as f32, 4.0, Some(6.5), 2.0, 8.0)).collect(),
+    ];
+    for tr in &tracks {
+        let mut s = f.initiate(&tr[0]);
+        let mut q = r.initiate(&tr[0]);
+        let b0 = Universal2DBox::try_from(s).unwrap();
+        assert!((b0.angle.unwrap_or(0.0) - tr[0].angle.unwrap_or(0.0)).abs() < 1e-6, "initiate stores the raw angle");
+        for (k, b) in tr.iter().enumerate().skip(1) {
+            s = f.predict(&s);
+            q = r.predict(&q);
+            for probe in [b.clone(), Universal2DBox::new(b.xc + 1.0, b.yc - 2.0, None, b.aspect, b.height * 1.1), Universal2DBox::new(b.xc, b.yc, Some(0.0), b.aspect, b.height)] {
+                let (d, dr) = (f.distance(s, &probe) as f64, r.distance(&q, &probe));
+                assert!(close(d, dr), "step {}: distance {} vs reference {} (probe angle {:?}, track angle {:?})", k, d, dr, probe.angle, b.angle);
+            }
+            s = f.update(&s, b);
+            q = r.update(&q, b);
+            let pb = Universal2DBox::try_from(s).unwrap();
+            assert!(close(pb.xc as f64, q.0[0]) && close(pb.yc as f64, q.0[1]) && close(pb.angle.unwrap_or(0.0) as f64, q.0[2]) && close(pb.aspect as f64, q.0[3]) && close(pb.height as f64, q.0[4]),
+                    "step {}: mean {:?} vs reference {:?}", k, pb, q.0);
+        }
+    }
+    // point filter against an independent f64 reference (constant noise model)
+    {
+        use nalgebra::{SMatrix as SM, SVector as SV};
+        let (wp, wv) = (1.0f64 / 20.0, 1.0f64 / 160.0);
+        let pf = Point2DKalmanFilter::default();
+        let mut fm = SM::<f64, 4, 4>::identity();
+        fm[(0, 2)] = 1.0; fm[(1, 3)] = 1.0;
+        let hm = SM::<f64, 2, 4>::identity();
+        let sq = |v: [f64; 4]| SM::<f64, 4, 4>::from_diagonal(&SV::<f64, 4>::from_iterator(v.iter().map(|e| e * e)));
+        let rm = SM::<f64, 2, 2>::from_diagonal(&SV::<f64, 2>::new(wp * wp, wp * wp));
+        let p0 = Point2::new(3.0f32, -2.0);
+        let mut s = pf.initiate(&p0);
+        let (mut x, mut pc) = (SV::<f64, 4>::new(3.0, -2.0, 0.0, 0.0), sq([2.0 * wp, 2.0 * wp, 10.0 * wv, 10.0 * wv]));
+        for k in 1..12 {
+            s = pf.predict(&s);
+            x = fm * x;
+            pc = fm * pc * fm.transpose() + sq([wp, wp, wv, wv]);
+            let m = Point2::new(3.0 + 0.7 * k as f32, -2.0 + 0.1 * (k * k) as f32);
+            let sm = hm * pc * hm.transpose() + rm;
+            let y = SV::<f64, 2>::new(m.x as f64, m.y as f64) - hm * x;
+            let dref = (y.transpose() * sm.try_inverse().unwrap() * y)[(0, 0)];
+            let d = pf.distance(&s, &m) as f64;
+            assert!(close(d, dref), "point filter step {}: distance {} vs reference {}", k, d, dref);
+            let kg = pc * hm.transpose() * sm.try_inverse().unwrap();
+            x = x + kg * y;
+            pc = pc - kg * sm * kg.transpose();
+            s = pf.update(&s, &m);
+            let got = Point2::<f32>::from(s);
+            assert!(close(got.x as f64, x[0]) && close(got.y as f64, x[1]), "point filter step {}: position {:?} vs reference {:?}", k, got, x);
+        }
+    }
+    // vector filter = point filter per point, for states of different ages and any order
+    let (vf, pf) = (Vec2DKalmanFilter::default(), Point2DKalmanFilter::default());
+    let pts = [Point2::new(1.0f32, 2.0), Point2::new(30.0, -4.0), Point2::new(-7.0, 9.0)];
+    let mut old = pf.initiate(&pts[0]);
+    for k in 1..5 { old = pf.update(&pf.predict(&old), &Point2::new(1.0 + k as f32, 2.0 + 0.5 * k as f32)); }
+    let young = pf.initiate(&pts[1]);
+    for order in [[0usize, 1], [1, 0]] {
+        let states = [old, young];
+        let st: Vec<_> = order.iter().map(|i| states[*i]).collect();
+        let ms: Vec<Point2<f32>> = order.iter().map(|i| pts[*i + 1]).collect();
+        let pred = vf.predict(&st);
+        let upd = vf.update(&pred, &ms);
+        let dist = vf.distance(&pred, &ms);
+        for (j, i) in order.iter().enumerate() {
+            let p1 = pf.predict(&states[*i]);
+            let u1 = pf.update(&p1, &pts[*i + 1]);
+            assert_eq!(dist[j].to_bits(), pf.distance(&p1, &pts[*i + 1]).to_bits(), "vector distance = point distance (order {:?})", order);
+            assert_eq!(Point2::<f32>::from(upd[j]), Point2::<f32>::from(u1), "vector update = point update per point (order {:?})", order);
+            assert_eq!(pf.distance(&upd[j], &pts[0]).to_bits(), pf.distance(&u1, &pts[0]).to_bits(), "same covariance after the update (order {:?})", order);
+        }
+    }
+}
+'''
+
+
+def _replay_kalman(cex, v, vm):
+    return KALMAN_REPLAY
+
+
+MIR = [
+    MQ("c07_box_initiate_terms", "quick", q_box_initiate, "box filter initiate: mean = measurement vector (raw angle, None = 0) + zero velocities; covariance = height-scaled diagonal",
+       "free box fields / weights, angle given or not", [K2 + "initiate", K2 + "std_position", K2 + "std_velocity"], replay=_replay_kalman),
+    MQ("c07_box_predict_terms", "quick", q_box_predict, "box filter predict: x' = F x, P' = F P F^T + Q, Q height-scaled on the state's own height",
+       "opaque state, free height / weights", [K2 + "predict"], replay=_replay_kalman),
+    MQ("c07_box_update_terms", "quick", q_box_update, "box filter update: textbook recurrence as terms; measurement vector [xc, yc, angle|0, aspect, height]; R on the state's height",
+       "opaque state, free measurement / weights", [K2 + "update", K2 + "project"], replay=_replay_kalman),
+    MQ("c07_box_distance_terms", "quick", q_box_distance, "box filter distance: |L^-1 (z - H x)|^2 with L = chol(H P H^T + R), same measurement vector as update",
+       "opaque state, free measurement / weights", [K2 + "distance", K2 + "project"], replay=_replay_kalman),
+]
+for _m in ('initiate', 'predict', 'update', 'distance'):
+    MIR.append(MQ("c07_vec_%s_maps_point_filter" % _m, "quick", _mk_vec_filter(_m), "Vec2DKalmanFilter::%s = the point filter applied to every (state, point) pair independently" % _m,
+                  "2 states / 2 points, point filter uninterpreted", ["similari::utils::kalman::kalman_2d_point_vec::Vec2DKalmanFilter::" + _m], replay=_replay_kalman))
+
+
+# ---- the point filter, same recurrences with constant (weight-only) noise
+KP = "similari::utils::kalman::kalman_2d_point::Point2DKalmanFilter::"
+
+
+def _pfilter(P, vm):
+    wp, wv = vm.fresh('f32', 'position_weight'), vm.fresh('f32', 'velocity_weight')
+    vm.assume(z3.And(fp_in(wp, 0.001, 1.0), fp_in(wv, 0.0001, 1.0)))
+    return Cell(mk(P, 'Point2DKalmanFilter', motion_matrix=mat_sym('F'), update_matrix=mat_sym('H'), std_position_weight=wp, std_velocity_weight=wv), 'pf'), wp, wv
+
+
+def _point(vm, tag='p'):
+    x, y = vm.fresh('f32', tag + '_x'), vm.fresh('f32', tag + '_y')
+    vm.assume(z3.And(fp_in(x, -1.0e4, 1.0e4), fp_in(y, -1.0e4, 1.0e4)))
+    return Adt('OPoint', 0, (Adt('XY', 0, (x, y)),)), [x, y]
+
+
+def _pnoise(wp, wv, kp, kv=None):
+    std = [f_mul(f32(kp), wp)] * 2 + ([f_mul(f32(kv), wv)] * 2 if kv is not None else [])
+    return [f_mul(s, s) for s in std]
+
+
+def _mk_point(method):
+    def q(vm, P):
+        fn = P.impl_methods[('Point2DKalmanFilter', None, method)][0][0]
+        fc, wp, wv = _pfilter(P, vm)
+        x, Pm, F, H = mat_sym('x'), mat_sym('P'), mat_sym('F'), mat_sym('H')
+        st0 = Cell(mk(P, 'KalmanState', mean=x, covariance=Pm), 's')
+        S_main = MatT('mul', (MatT('mul', (H, Pm)), MatT('T', (H,))))
+
+        def R_ok(R, msg):
+            vm.check(BOOL(isinstance(R, MatT) and R.op == 'diag'), msg + " (diagonal)")
+            if isinstance(R, MatT) and R.op == 'diag':
+                _check_vec(vm, R.args[0], _pnoise(wp, None, 1.0), msg)
+        if method == 'initiate':
+            p, z = _point(vm)
+            st = vm.exec_fn(fn, [Ref(fc), Ref(Cell(p, 'p'))], {})
+            _check_vec(vm, fld(P, st, 'KalmanState', 'mean'), z + [f32(0.0)] * 2, "initiate: mean = [x, y, 0, 0]")
+            cov = fld(P, st, 'KalmanState', 'covariance')
+            vm.check(BOOL(isinstance(cov, MatT) and cov.op == 'diag'), "initiate: diagonal covariance")
+            if isinstance(cov, MatT) and cov.op == 'diag':
+                _check_vec(vm, cov.args[0], _pnoise(wp, wv, 2.0, 10.0), "initiate: covariance = squares of (2 w_p, 2 w_p, 10 w_v, 10 w_v)")
+        elif method == 'predict':
+            st = vm.exec_fn(fn, [Ref(fc), Ref(st0)], {})
+            vm.check(BOOL(fld(P, st, 'KalmanState', 'mean') == MatT('mul', (F, x))), "predict: mean' = F x")
+            cov = fld(P, st, 'KalmanState', 'covariance')
+            ok = isinstance(cov, MatT) and cov.op == 'add' and cov.args[0] == MatT('mul', (MatT('mul', (F, Pm)), MatT('T', (F,)))) and cov.args[1].op == 'diag'
+            vm.check(BOOL(ok), "predict: covariance' = F P F^T + Q with diagonal Q")
+            if ok:
+                _check_vec(vm, cov.args[1].args[0], _pnoise(wp, wv, 1.0, 1.0), "predict: Q = squares of (w_p, w_p, w_v, w_v)")
+        elif method == 'update':
+            p, z = _point(vm)
+            st = vm.exec_fn(fn, [Ref(fc), Ref(st0), Ref(Cell(p, 'p'))], {})
+            mean, cov = fld(P, st, 'KalmanState', 'mean'), fld(P, st, 'KalmanState', 'covariance')
+            ok = isinstance(mean, MatT) and mean.op == 'add' and mean.args[0] == x and isinstance(mean.args[1], MatT) and mean.args[1].op == 'T' and mean.args[1].args[0].op == 'mul'
+            vm.check(BOOL(ok), "update: mean' = x + (y K)^T")
+            if not ok:
+                return
+            yT, K = mean.args[1].args[0].args
+            y = yT.args[0] if yT.op == 'T' else MatT('T', (yT,))
+            vm.check(BOOL(y.op == 'sub' and y.args[1] == MatT('mul', (H, x))), "update: innovation y = z - H x")
+            if y.op == 'sub':
+                _check_vec(vm, y.args[0], z, "update: measurement z = [x, y] of the point")
+            okK = K.op == 'solve_lower_triangular' and isinstance(K.args[0], MatT) and K.args[0].op == 'add'
+            vm.check(BOOL(okK), "update: gain K solves S K = (P H^T)^T")
+            if okK:
+                S = K.args[0]
+                vm.check(BOOL(S.args[0] == S_main and K.args[1] == MatT('T', (MatT('mul', (Pm, MatT('T', (H,)))),))), "update: S = H P H^T + R, right-hand side (P H^T)^T, all from THIS state's covariance")
+                R_ok(S.args[1], "update: R = squares of (w_p, w_p)")
+                vm.check(BOOL(cov == MatT('sub', (Pm, MatT('mul', (MatT('mul', (MatT('T', (K,)), S)), K))))), "update: covariance' = P - K^T S K")
+        else:
+            p, z = _point(vm)
+            vm.exec_fn(fn, [Ref(fc), Ref(st0), Ref(Cell(p, 'p'))], {})
+            sm = vm.notes.get('last_sum_term')
+            ok = sm is not None and sm.op == 'cmul' and sm.args[0] == sm.args[1] and sm.args[0].op == 'solve_lower_triangular'
+            vm.check(BOOL(ok), "distance = |r|^2 with r from a lower-triangular solve")
+            if not ok:
+                return
+            L, rhs = sm.args[0].args
+            okL = L.op == 'chol_l' and L.args[0].op == 'cholesky' and L.args[0].args[0].op == 'add' and L.args[0].args[0].args[0] == S_main
+            vm.check(BOOL(okL), "distance: L is the Cholesky factor of S = H P H^T + R")
+            if okL:
+                R_ok(L.args[0].args[0].args[1], "distance: R = squares of (w_p, w_p)")
+            vm.check(BOOL(rhs.op == 'sub' and rhs.args[1] == MatT('mul', (H, x))), "distance: residual z - H x")
+            if rhs.op == 'sub':
+                _check_vec(vm, rhs.args[0], z, "distance: measurement z = [x, y] of the point")
+    return q
+
+
+for _m in ('initiate', 'predict', 'update', 'distance'):
+    MIR.append(MQ("c07_point_%s_terms" % _m, "quick", _mk_point(_m), "point filter %s: textbook recurrence as terms with the library's constant noise model" % _m,
+                  "opaque state, free point / weights", [KP + _m], replay=_replay_kalman))
